@@ -117,8 +117,7 @@ fn linear<T: Dom>(vk: VK, k: usize, kind: Kind) {
     let mut v = build::<T>(&vk, echo());
     let mut h: Vec<T> = vec![];
     for t in 0..k {
-        let x = T::input(&format!("x{t}"));
-        if kind != Kind::Exact { T::assume(abs_le(x, T::one())); }
+        let x = if kind != Kind::Exact { T::input_unit(&format!("x{t}")) } else { T::input(&format!("x{t}")) };
         h.push(x);
         v.update(x);
         let spec = match &vk { VK::SuperSmoother(n) => super_smoother_spec(&h, *n), VK::Roofing(n, m) => roofing_spec(&h, *n, *m), VK::LaguerreFilter(g) => laguerre_filter_spec(&h, T::c(*g)), VK::CyberCycle(n) => cyber_cycle_spec(&h, *n), _ => unreachable!() };
@@ -126,7 +125,7 @@ fn linear<T: Dom>(vk: VK, k: usize, kind: Kind) {
         match (v.last(), spec) {
             (None, None) => {}
             (Some(o), Some(s)) => match kind { Kind::Exact => T::oblige(&format!("{name}: out == the paper's difference equation re-evaluated from the full history"), eq(o, s)),
-                Kind::Tol(e) => T::oblige(&format!("{name}: |out - paper's difference equation| <= {e} for |x| <= 1 (crate writes 4.4422 for 1.414*pi)"), close(o, s, T::c(e))) },
+                Kind::Tol(e) => T::oblige_abs_le_boxed(&format!("{name}: |out - paper's difference equation| <= {e} for |x| <= 1 (crate writes 4.4422 for 1.414*pi)"), o - s, e) },
             _ => T::oblige(&format!("{name}: reports exactly when the reference does (warm-up)"), Cond::Bool(false)),
         }
     }
@@ -225,11 +224,12 @@ fn pfe<T: Dom>(n: usize, k: usize, ma: VK) {
 pub fn units(tier: Tier, _seed: u64) -> Vec<Unit> {
     let q = tier == Tier::Quick;
     let mut u = vec![];
-    let ss_ns: Vec<usize> = if q { vec![1, 2, 3, 4, 10, 16, 20] } else { vec![1, 2, 3, 4, 5, 6, 7, 8, 9, 10, 16, 20, 48] };
+    let ss_ns: Vec<usize> = if q { vec![1, 2, 3, 4, 5, 6, 7, 8, 9, 10, 12, 16, 20, 32] } else { vec![1, 2, 3, 4, 5, 6, 7, 8, 9, 10, 16, 20, 48] };
     for &n in &ss_ns {
         let k = (2 * n + 4).max(12).min(40);
         u.push(unit!(format!("C11/SuperSmoother({n})/k={k}"), linear(VK::SuperSmoother(n), k, Kind::Tol(1e-5))));
         if n >= 2 { let kk = (n + 2 + 4 + 8).min(40); u.push(unit!(format!("C11/Roofing({n},4)/k={kk}"), linear(VK::Roofing(n, 4), kk, Kind::Tol(1e-5)))); }
+        if n >= 2 && n <= 8 { let kk = (2 * n + 10).min(40); u.push(unit!(format!("C11/Roofing({n},{n})/k={kk}"), linear(VK::Roofing(n, n), kk, Kind::Tol(1e-5)))); }
         u.push(unit!(format!("C11/CyberCycle({n})/k={k}"), linear(VK::CyberCycle(n), k.max(14), Kind::Exact)));
     }
     if !q { u.push(unit!("C11/Roofing(10,10)/k=40", linear(VK::Roofing(10, 10), 40usize, Kind::Tol(1e-5)))); }
@@ -259,7 +259,7 @@ pub fn units(tier: Tier, _seed: u64) -> Vec<Unit> {
 pub fn meta() -> Meta {
     Meta {
         functions: vec!["SuperSmoother", "RoofingFilter", "LaguerreFilter", "LaguerreRSI", "CyberCycle", "TrendFlex", "ReFlex", "EhlersFisherTransform (identity and Ema(2) average)", "PolarizedFractalEfficiency (identity and Ema(2) average) — each ::{new,update,last}"],
-        bounds: "SuperSmoother/Roofing/CyberCycle: N in {1,2,3,4,10,16,20} (quick) / {1..10,16,20,48} (thorough), k = max(2N+4,12) capped at 40; LaguerreFilter gamma in {0,0.5,0.8,0.95,0.995}, k=12, and symbolic gamma in [0,1), k=5; LaguerreRSI N in {2,3} / {2..5,10}, k=4/5, all comparison paths (up to the 20000-path cap, reported when hit); TrendFlex/ReFlex N in {3,4} / {3..6,10,16}, k=N+3; EFT N in {2,3} / {2,3,4}; PFE N in {3,4} / {3..6}, k=N+3; inputs unconstrained reals (|x|<=1 where the obligation is a 1e-5 tolerance)",
+        bounds: "SuperSmoother/Roofing(N,4 and N,N)/CyberCycle: N in {1..10,12,16,20,32} (quick) / {1..10,16,20,48} (thorough), k = max(2N+4,12) capped at 40; LaguerreFilter gamma in {0,0.5,0.8,0.95,0.995}, k=12, and symbolic gamma in [0,1), k=5; LaguerreRSI N in {2,3} / {2..5,10}, k=4/5, all comparison paths (up to the 20000-path cap, reported when hit); TrendFlex/ReFlex N in {3,4} / {3..6,10,16}, k=N+3; EFT N in {2,3} / {2,3,4}; PFE N in {3,4} / {3..6}, k=N+3; inputs unconstrained reals (|x|<=1 where the obligation is a 1e-5 tolerance)",
         outside: vec!["window lengths and stream lengths beyond those listed", "f64 rounding", "TrendFlex/ReFlex below N=3 (the crate's window then holds fewer than the two previous smoother values the recursion reads)"],
         assumptions: vec!["reference coefficients use the same libm (exp, cos, sin of concrete arguments) as the crate, so a changed literal or formula shows as a different rational coefficient", "where the crate writes the truncated literal 4.4422 for 1.414*pi (SuperSmoother, Roofing) the obligation is |impl - spec| <= 1e-5 on |x| <= 1", "sqrt exact (axiomatised), ln uninterpreted with congruence"],
     }
